@@ -313,6 +313,22 @@ def _leg_ctor(case, add, counters):
                                  lambda a=a, b=b, ax=ax: FB.Concatenate([B(a), B(b)], axis=ax)))
         elif r != len(bi.shape) and r > 0:
             apps.append(("Concatenate|rank-mismatch", f"Concatenate([{ai.shape},{bi.shape}])", lambda a=a, b=b: FB.Concatenate([B(a), B(b)])))
+    # mismatching conditional members separated by an unconditional one (a pairwise neighbour comparison misses these)
+    conds = [(a, ai) for a, ai in infos if ai.cond_shape is not None]
+    unconds = [(a, ai) for a, ai in infos if ai.cond_shape is None]
+    for (a, ai), (b, bi) in itertools.product(conds, repeat=2):
+        if ai.cond_shape == bi.cond_shape or ai.shape != bi.shape:
+            continue
+        for u, ui in unconds:
+            if ui.shape != ai.shape:
+                continue
+            for nm, ctor in (("Chain", lambda xs: FB.Chain(xs)), ("Stack", lambda xs: FB.Stack(xs)), ("Stack(-1)", lambda xs: FB.Stack(xs, axis=-1)),
+                             ("Concatenate", lambda xs: FB.Concatenate(xs))):
+                if nm == "Concatenate" and len(ai.shape) == 0:
+                    continue
+                for order in ((a, u, b), (u, a, u, b), (a, u, u, b)):
+                    apps.append((f"{nm}|cond-mismatch-separated", f"{nm}(cond {ai.cond_shape}, unconditional, cond {bi.cond_shape}) order {len(order)}",
+                                 lambda order=order, ctor=ctor: ctor([B(x) for x in order])))
     for a, ai in infos:
         n = int(np.prod(ai.shape))
         for ws in LATTICE:
